@@ -112,6 +112,11 @@ def classify_miri(stderr):
     if m:
         line = m.group(1)
         if "Data race" in line or "data race" in line:
+            # A race in which one side is a *retag* (creation of a reference, e.g. the `&mut World`
+            # every schedule task forms) is an aliasing-model artefact, not two conflicting
+            # accesses to data: logged as a borrow-model note (DESIGN.md 4.6 / 11.3).
+            if "retag" in line:
+                return "borrow", line
             return "race", line
         if any(w in line for w in BORROW_WORDS):
             return "borrow", line
@@ -754,6 +759,13 @@ class SchedPlan(ToolPlan):
             if not quick:
                 out2 = os.path.join(ctx.scratch, f"{p}-pools.json")
                 jobs.append(dict(name=p + "-pools", kind="native", argv=[os.path.join(TARGET, "release", p), "run", "--seed", str(ctx.seed * 37 + i), "--worlds", "150", "--pools-only", "1", "--jitter", "20", "--out", out2], out=out2, timeout=5400))
+        if not NO_MIRI and self.prop in ("C07", "C08"):
+            # the schedule code paths (stage.rs, claims, has_run) under Miri, single-threaded through
+            # the serial join hook: memory / validity errors; races are the DAG oracle's business
+            for i, p in enumerate(self.progs[: (2 if quick else 8)]):
+                out = os.path.join(ctx.scratch, f"{p}-miri.json")
+                jobs.append(dict(name=p + "-miri", kind="miri", argv=["cargo", "+nightly", "miri", "run", "--offline", "-q"] + CARGO_CONFIG + ["-p", "schedprogs", "--bin", p, "--", "run", "--seed", str(ctx.seed + i), "--worlds", "5" if quick else "15", "--hook-only", "1", "--out", out],
+                                 env={"MIRIFLAGS": MIRIFLAGS + " -Zmiri-ignore-leaks", "CARGO_TARGET_DIR": MIRI_TARGET}, out=out, timeout=1800 if quick else 5400))
         for i, p in enumerate(getattr(self, "tsan_progs", [])):
             out = os.path.join(ctx.scratch, f"{p}-tsan.json")
             jobs.append(dict(name=p + "-tsan", kind="native", argv=[os.path.join(TARGET, "tsan", "x86_64-unknown-linux-gnu", "release", p), "run", "--seed", str(ctx.seed * 41 + i), "--worlds", "40", "--pools-only", "1", "--jitter", "30", "--out", out],
